@@ -2,6 +2,7 @@
 from __future__ import annotations
 
 import ast
+import contextlib
 import io
 import json
 import re
@@ -381,6 +382,10 @@ def norm_ws(s: str) -> str:
     return re.sub(r"\s+", " ", s).strip()
 
 
+# the render-boundary observer (vlib/props/render_probe.py); set by run() for the duration of the e2e campaign
+PROBE = None
+
+
 def oracle_case(ck: Check, camp, slot: str, s: str, model: str, opts: dict, formatters) -> None:
     """The property's own oracle on one (slot, string, kind, options) case."""
     camp.evaluations += 1
@@ -394,7 +399,10 @@ def oracle_case(ck: Check, camp, slot: str, s: str, model: str, opts: dict, form
     except Exception:  # noqa: BLE001 - e.g. a text that GraphQL cannot carry
         camp.hit("not_expressible")
         return
-    adv = e2e.run_generate(shape.doc_text(adv_doc), input_file_type=input_type_of(slot), model=model, opts=opts, formatters=formatters)
+    with (PROBE.capture(inp) if PROBE is not None else contextlib.nullcontext()) as observed:
+        adv = e2e.run_generate(shape.doc_text(adv_doc), input_file_type=input_type_of(slot), model=model, opts=opts, formatters=formatters)
+        if observed is not None:
+            observed.files = adv.files
     neu = e2e.run_generate(neu_doc, input_file_type=input_type_of(slot), model=model, opts=opts, formatters=formatters)
     if shape.has_astral(s):
         camp.hit("str:astral")
@@ -629,7 +637,15 @@ def run(ck: Check) -> None:
     guard.campaign(ck, campaign_translate, 600 if quick else 6000)
     guard.campaign(ck, campaign_docstring, 800 if quick else 10000)
     guard.campaign(ck, campaign_pattern, 1000 if quick else 15000)
+    # the value hypothesis of template_lexically_closed / sites_in_allowed_states (NeutralValues) is observed on the real
+    # render contexts of every planted-string run
+    global PROBE
+    from . import render_probe
+
+    PROBE = render_probe.Probe()
     guard.campaign(ck, campaign_e2e, 400 if quick else 6000)
+    probe, PROBE = PROBE, None
+    guard.campaign(ck, render_probe.evaluate, probe, render_probe.ASSUMED_BY_C10)
     guard.campaign(ck, tpl_campaign.campaign_lex_auto, 600 if quick else 6000)  # last: the older campaigns keep their random streams
     ck.search_hooks.append(search_bad_table_char)
     known_findings(ck)
